@@ -125,11 +125,11 @@ Definition spec_cond (p t f : sres) : sres :=
   | None => SErr
   | Some b =>
       do sv <- (if b then t else f);
-      match (if b then f else t) with
-      | SErr => SOk sv
-      | SOk ov => match spec_unify (type_of sv) (type_of ov) with
-                  | UOk rt => to_type sv rt
-                  | _ => SErr end
+      match t, f with
+      | SOk tv, SOk fv => match spec_unify (type_of tv) (type_of fv) with
+                          | UOk rt => to_type sv rt
+                          | _ => SErr end
+      | _, _ => SOk sv          (* the unselected arm is erroneous *)
       end
   end.
 
@@ -163,7 +163,7 @@ Fixpoint build_obj (group : bool) (kvs : list (list Z * val)) (acc : list (list 
 Definition key_identifier (e : expr) : option (list Z) :=
   match e with
   | EScopeTrav root [] => Some root
-  | ELit (VNull TDyn) => Some [110;117;108;108]
+  | ELit (VNull _) => Some [110;117;108;108]
   | ELit (VBool true) => Some [116;114;117;101]
   | ELit (VBool false) => Some [102;97;108;115;101]
   | _ => None
@@ -174,32 +174,43 @@ Definition key_identifier (e : expr) : option (list Z) :=
    If there are no more arguments, the call is erroneous."  "If the function has no variadic
    parameter, it is an error if any arguments remain".  Then per argument: "does not match
    the parameter's type specification, the call is erroneous" (after the automatic
-   conversion to the parameter type); "is null and the parameter is not specified as
-   accepting nulls, the call is erroneous".  The result is "the function's result value
-   definition" applied to the arguments. *)
-Fixpoint spec_args (f : fn) (i : nat) (args : list val) : option (list val) :=
+   conversion to the parameter type, spec.md "Type Conversions": "automatic type conversion is
+   attempted"); "is null and the parameter is not specified as accepting nulls, the call is
+   erroneous".  The result is "the function's result value definition" applied to the
+   arguments.  Two passes: map and convert the arguments, then check them. *)
+Fixpoint spec_conv_args (f : fn) (i : nat) (args : list val) : option (list val) :=
   match args with
   | [] => Some []
   | a :: r =>
-      match param_for f i with
+      match param_for f i with            (* the i-th positional parameter, else the variadic one *)
       | None => None
       | Some p =>
-          match conv a (p_ty p) with
-          | COk a' =>
-              if is_null a' && negb (p_null p) then None
-              else if negb (conforms (S (ty_size (type_of a'))) (type_of a') (p_ty p)) then None
-              else match spec_args f (S i) r with Some r' => Some (a' :: r') | None => None end
-          | _ => None
+          match conv a (p_ty p), spec_conv_args f (S i) r with
+          | COk a', Some r' => Some (a' :: r')
+          | _, _ => None
           end
+      end
+  end.
+Fixpoint spec_check_args (f : fn) (i : nat) (args : list val) : bool :=
+  match args with
+  | [] => true
+  | a :: r =>
+      match param_for f i with
+      | None => false
+      | Some p =>
+          negb (is_null a && negb (p_null p))
+          && conforms (S (ty_size (type_of a))) (type_of a) (p_ty p)      (* "matches" *)
+          && spec_check_args f (S i) r
       end
   end.
 Definition spec_call (f : fn) (args : list val) : sres :=
   let np := length (f_params f) in
   if (length args <? np)%nat then SErr
   else if (match f_varparam f with None => true | Some _ => false end) && (np <? length args)%nat then SErr
-  else match spec_args f 0 args with
+  else match spec_conv_args f 0 args with
        | None => SErr
        | Some args' =>
+           if negb (spec_check_args f 0 args') then SErr else
            match f_rettype f args' with
            | None => SErr
            | Some rt => match f_impl f args' rt with OOk v => SOk v | _ => SErr end
@@ -352,3 +363,63 @@ Definition env_of (c : ctx) (anon : option val) : env :=
         anon.
 
 Definition result_of (r : val * list diag) : sres := if has_errors (snd r) then SErr else SOk (fst r).
+
+(* ---- spec_eval and the implementation model side by side ------------------------------------
+   [result_of (value c e)] versus [spec_eval (env_of c None) e], computed by vm_compute, in the
+   scope  l = list(number)[1,2]; m = map(number){a=1}; st = set(string){"x","y"}; o = {a=1};
+   n = null string; s = "hi"  and the harness function table (upper, sum, first, fail, isnull,
+   pair).  "=" : same outcome on both sides.  "DEV": differs (see Eval/SpecRefines.v).
+
+     1 + 2 * 3                                   7                         =
+     "a${1}b"                                    "a1b"                     =
+     true ? 1 : "a"                              "1"                       =
+     [for v in [1,2,3] : v * 2 if v != 2]        [2, 6]                    =
+     {for k, v in {a=1,b=2} : v => k...}         {"1"=["a"],"2"=["b"]}     =
+     [1,2,3][*]                                  [1, 2, 3]                 =
+     null                                        null (dynamic)            =
+     !true || false && true                      false                     =
+     sum(1, 2, 3)  /  upper("abc")               6  /  "ABC"               =
+     first([1,2]...)                             1                         =
+     {a = 1}.a                                   1                         =
+     [1,2][5]  /  {a = 1}["b"]                   error                     =
+     "x" == 1                                    false                     =
+     1 / 0                                       +Inf                      =  (go-cty arithmetic)
+     5 % 3  /  -(1)                              2  /  -1                  =
+     "${true}"                                   true (unwrapped)          =
+     "%{ for x in [1,2] }${x}%{ endfor }"        "12"                      =
+     "%{ if true }y%{ else }n%{ endif }"         "y"                       =
+     null == null                                true                      =
+     [null][0]                                   null                      =
+     {(null) = 1}                                error                     =
+     {"a" = 1, a = 2}                            impl {a=2} | spec error   DEV objcons_dupkey
+     true ? null : 1                             null of number            =
+     true ? [1] : ["a"]                          ["1"]                     =
+     fail("x")  /  nosuchfn(1)                   error                     =
+     pair("a", null)                             ["a", null of number]     =
+     isnull(null)                                true                      =
+     [for v in null : v]  /  [for v in 1 : v]    error                     =
+     {for v in ["a","a"] : v => 1}               error (duplicate key)     =
+     "a" + 1                                     error                     =
+     "1" + 1  /  1 < "2"                         2  /  true                =
+     null + 1                                    error                     =
+     l.0  (legacy index)                         1                         =
+     "abc".x                                     error                     =
+     [{a=1},{a=2}][*].a                          [1, 2]                    =
+     null[*]  /  1[*]                            []  /  [1]                =
+     false && nosuchvar                          impl false | spec error   DEV logic_and_shortcircuit
+     true && null                                impl false | spec error   DEV logic_and_null
+     null || true                                impl true  | spec error   DEV logic_or_null
+     m.a                                         impl 1     | spec error   DEV getattr_map
+     l[*]                                        impl list  | spec tuple   DEV splat_list
+     true ? 1 : !"x"                             impl error | spec 1       DEV cond_typed_error_arm
+     [for v in [] : v if null]                   impl error | spec []      DEV for_probe
+     {o.a = 1}                                   impl error | spec {"1"=1} DEV objkey_traversal
+     "x${null}"                                  error                     =
+     "${null}"                                   null (unwrapped)          =
+     [1,2][0.5]  /  [1,2][-1]                    error                     =
+     true ? {a=1} : {b=2}                        map(number){a=1}          =  (go-cty unification,
+                                                                              prose: SpecMdRules.v)
+     null ? 1 : 2                                error                     =
+     "true" ? 1 : 2                              1                         =
+     st[0]                                       error                     =
+     false ? l[7] : 0                            0                         =                      *)
